@@ -291,6 +291,24 @@ def run_tlc(module, cfg, env=None, workers=1, simulate=None, depth=None, coverag
     return res
 
 
+def run_tlaps(main, deps=(), timeout=600):
+    """tlapm on spec/<main>.tla (with spec/<deps> copied next to it) in a scratch directory; returns the number of proof obligations,
+    all of which must be proved — anything else is a tool error (the proofs are about the specification, not about the tree)."""
+    import re, shutil
+    pw = work_dir('tlaps_' + main)
+    for f in (main,) + tuple(deps):
+        shutil.copy(os.path.join(SPEC, f + '.tla'), pw)
+    try:
+        pr = subprocess.run(['tlapm', main + '.tla'], cwd=pw, stdout=subprocess.PIPE, stderr=subprocess.STDOUT, timeout=timeout)
+        pout = pr.stdout.decode(errors='replace')
+    except (subprocess.TimeoutExpired, FileNotFoundError) as ex:
+        pout = str(ex)
+    m = re.search(r'All (\d+) obligations? proved', pout)
+    if not m:
+        raise ToolError(f'tlapm did not prove {main}.tla:\n' + pout[-1500:])
+    return int(m.group(1))
+
+
 def tla_str(s):
     return '"' + s.replace('\\', '\\\\').replace('"', '\\"') + '"'
 
